@@ -72,7 +72,7 @@ def pair_cases(draw, max_leaves, k=2, full=False):
 def edit_cases(draw, max_leaves):
     c = draw(pair_cases(max_leaves, full=True))
     c["edits"] = draw(st.lists(st.tuples(st.integers(0, 100), st.integers(0, 100)), min_size=1, max_size=4))
-    c["edit_kinds"] = draw(st.lists(st.sampled_from(["move", "move", "prune_leaf", "flip_rooting"]), min_size=4, max_size=4))
+    c["edit_kinds"] = draw(st.lists(st.sampled_from(["move", "move", "prune_leaf", "flip_rooting", "reseed", "swap_taxa"]), min_size=4, max_size=4))
     c["followup_updated"] = draw(st.booleans())
     c["first"] = draw(st.integers(0, 9))
     c["root_chain"] = None
@@ -375,6 +375,23 @@ def check_edits(ctx, case):
             px = cur.obj[cur.parent[x]]
             px.remove_child(cur.obj[x])
             cur.obj[y].add_child(cur.obj[x])
+        elif kind == "reseed":
+            # the seed moves to another internal node: on an unrooted tree every split stays, but sits on other edge
+            # objects afterwards; on a rooted tree the clusters change
+            ints = [i for i in cur.internals() if i != cur.root]
+            if not ints:
+                continue
+            t1.reseed_at(cur.obj[ints[xi % len(ints)]], update_bipartitions=False, suppress_unifurcations=False,
+                         collapse_unrooted_basal_bifurcation=False)
+            ctx.cls("edits:reseed")
+        elif kind == "swap_taxa":
+            # two leaves exchange their taxa: nothing is restructured, the splits (and the lengths on them) change
+            lv = cur.leaves()
+            a_, b_ = cur.obj[lv[xi % len(lv)]], cur.obj[lv[yi % len(lv)]]
+            if a_ is b_:
+                continue
+            a_.taxon, b_.taxon = b_.taxon, a_.taxon
+            ctx.cls("edits:swap_taxa")
         elif kind == "prune_leaf":
             # the leaf set changes: both trees lose the same taxon (t2 is rebuilt fresh, t1 is edited in place and
             # still carries whatever it cached while it had the larger leaf set)
